@@ -11,7 +11,14 @@ SPEC = {
              "permutation and every bracketing of the parties' copies plus the flat fold; a conflict experiment (Updater with different "
              "values at one place, two randomised signatures for one spend, or one field altered through the serde value tree); "
              "SpendFinalizer; TransactionExtractor where proofs exist (transparent-only cases, and a sample proved with the real Sapling "
-             "and Orchard provers). After every role application the PCZT is serialised/parsed/compared and its implied txid compared "
+             "and Orchard provers). 45% of the cases first get fields only a third-party Constructor/Creator sets (explicit non-final or final "
+             "input sequence, per-input required height/time lock, absent or non-zero fallback lock time), injected through the value tree. "
+             "Orchard/Ironwood ciphertexts are compacted by the Redactor into memo plaintexts (memos of 0, 1, 511, 512 significant bytes, "
+             "no-memo marker, text and arbitrary lead bytes), round-tripped, resolved back and handed to the next role. Pairs of copies that "
+             "differ in exactly one field (every Global field; input sequence / required lock times / value / prevout / sighash type; output "
+             "value; shielded nullifiers), present-vs-present and absent-vs-present, go through every Combiner order: copies implying "
+             "different txids must never combine, a successful combination must imply the inputs' txid. "
+             "After every role application the PCZT is serialised/parsed/compared and its implied txid compared "
              "with the one at creation. Distinct = distinct (request shape incl. epoch, version, pools, counts, paddings; builder kind; "
              "real/mock proofs); all cases are non-trivial (each yields hundreds of role/encoding/combination verdicts, counted "
              "separately in the counters)."),
@@ -20,6 +27,7 @@ SPEC = {
         "ciborium::Value (dependency crate) as the generic value tree of the pub serde type pczt::v2::Pczt; the union / diff / v1-representability oracles work on that tree only",
         "v1-representability rule written from the v1 layout: tx version != 6, Ironwood bundle canonically empty, Orchard note version 2, no absent Orchard anchor/cv_net/cmx on a bundle with actions, no memo-plaintext ciphertexts, no absent Sapling anchor on a bundle with spends",
         "tx_modifiable merges bitwise as documented on pczt::common::Global (bits 0,1,7 towards 0; bit 2 towards 1)",
+        "absence of a field with a documented default is that default (fallback_lock_time 0, sequence 0xFFFFFFFF, no required lock time): two copies conflict when the txids they imply differ even if the field-wise union finds no two different values",
         "txid: zcash_primitives TxIdDigester/to_txid over into_effects() (digest correctness is C04's subject); extraction with real proofs verifies proofs and signatures with the dependency crates",
         "IoFinalizer, Signer and Prover draw from OsRng inside the library: runs are reproducible in structure, not in signature/proof bytes",
     ],
@@ -46,6 +54,15 @@ SPEC = {
             "pczts:deferred_builder": 6, "pczts:tx_v5": 45, "pczts:tx_v6": 20,
             "pczts_with:transparent": 50, "pczts_with:sapling": 30, "pczts_with:orchard": 40, "pczts_with:ironwood": 10,
             "extracted": 8, "extracted_with_real_proofs": 3, "handover_through_bytes": 90, "creator_new_probes": 7,
+            "foreign_constructor_cases": 35, "foreign_constructor:sequence-non-final": 9, "foreign_constructor:sequence-final-explicit": 7,
+            "foreign_constructor:required-height-lock": 6, "foreign_constructor:required-time-lock": 6,
+            "foreign_constructor:fallback-absent": 8, "foreign_constructor:fallback-nonzero": 8,
+            "field_pair_cases": 600, "field_pair_absent_vs_present": 350,
+            "field_pair:global.fallback_lock_time:absent-vs-nonzero": 100, "field_pair:global.fallback_lock_time:absent-vs-zero": 100,
+            "field_pair:transparent.inputs[].sequence:absent-vs-non-final": 30, "field_pair:transparent.inputs[].sequence:absent-vs-final": 30,
+            "combine_conflicts_by_implied_txid_only": 180, "combine_result_txid_checked": 150,
+            "memo_compactions": 250, "memo_compaction_resolved_back": 250, "memo_compaction_next_role_ok": 120,
+            "memo_plaintext_len:0": 200, "memo_plaintext_len:1": 60, "memo_plaintext_len:511": 30, "memo_plaintext_len:512": 100,
         },
         "thorough": {
             "evaluations": 2500, "distinct_nontrivial": 2000,
@@ -55,6 +72,10 @@ SPEC = {
             "combine_experiments_n4": 400, "serde_route_conflicts": 600,
             "signed:ironwood": 400, "pczts:deferred_builder": 150, "pczts_with:ironwood": 300,
             "extracted": 250, "extracted_with_real_proofs": 40, "creator_new_probes": 7,
+            "foreign_constructor_cases": 800, "foreign_constructor:sequence-non-final": 200, "foreign_constructor:required-height-lock": 120,
+            "foreign_constructor:required-time-lock": 120, "foreign_constructor:fallback-absent": 150,
+            "field_pair_cases": 12000, "field_pair_absent_vs_present": 6000, "combine_conflicts_by_implied_txid_only": 3000,
+            "memo_compactions": 5000, "memo_plaintext_len:511": 600, "memo_plaintext_len:512": 2000,
         },
     },
     "manifest": {
